@@ -1217,3 +1217,31 @@ Definition exec_streams (now : Z) (d : db) (name : bytes) (parts : list frame) (
   else if beq name (bs "XPENDING") then Some (h_xpending now d parts)
   else if beq name (bs "XINFO") then Some (h_xinfo now d parts)
   else None.
+
+(** ---- WATCH (C08): the keys on which the engine calls mark_modified ----
+    xadd / xadd_with_id mark on success, xtrim / xdel when something was removed.  The
+    consumer-group commands never mark for what they do to the group (pending entries,
+    cursor, consumers live behind a shared Arc outside the engine: finding
+    stream-group-writes-unmarked); they mark only through storage.get removing an expired
+    key and through set_value of XGROUP CREATE ... MKSTREAM. *)
+Definition gone_keys (d d' : db) : list bytes :=
+  filter (fun k => negb (amem k (d_data d'))) (map fst (d_data d)).
+Definition fresh_keys (d d' : db) : list bytes :=
+  filter (fun k => negb (amem k (d_data d))) (map fst (d_data d')).
+(** removed as expired by storage.get and created again by MKSTREAM in the same command:
+    the entry lost its deadline (put_stream keeps deadlines); marked twice *)
+Definition reborn_keys (d d' : db) : list bytes :=
+  flat_map (fun ke : bytes * entry =>
+              match e_exp (snd ke), alookup (fst ke) (d_data d') with
+              | Some _, Some e' => match e_exp e' with None => [fst ke; fst ke] | Some _ => [] end
+              | _, _ => []
+              end) (d_data d).
+Definition marks_streams (d d' : db) (name : bytes) (parts : list frame) (reply : frame) : list bytes :=
+  let k1 := match nth_arg parts 1 with Some k => [k] | None => [] end in
+  if beq name (bs "XADD") then (match reply with FBulk _ => k1 | _ => [] end)
+  else if beq name (bs "XTRIM") || beq name (bs "XDEL") then
+    (match reply with FInt n => if 0 <? n then k1 else [] | _ => [] end)
+  else if beq name (bs "XGROUP") || beq name (bs "XREADGROUP") || beq name (bs "XACK") || beq name (bs "XCLAIM")
+          || beq name (bs "XPENDING") || beq name (bs "XINFO") then
+    gone_keys d d' ++ reborn_keys d d' ++ fresh_keys d d'
+  else [].
